@@ -68,13 +68,13 @@ def make_skeleton(spec):
         # the props type expands the same literal-union alias before the emits are collected
         ptype = 'Pick<{{ %s }}, Ev>' % '; '.join("'%s': string" % n for n in ev)
     fn = '(props: %s, %s) => () => null' % (ptype, ann) if spec.get('setup', 'arrow') == 'arrow' else 'function (props: %s, %s) {{ return () => null }}' % (ptype, ann)
-    call = ('export default ' if spec.get('scope') != 'local' else '') + 'defineComponent(%s);' % fn
+    call = ('export default ' if spec.get('scope', 'top') == 'top' else '') + 'defineComponent(%s);' % fn
     if spec.get('ctx') == 'second-call':
         # an earlier component of the same module declares its events through the same type
         call = 'const First = defineComponent((p: {{ b: number }}, %s) => () => null);\n' % ann + call
     elif spec.get('ctx') == 'third-call':
         call = ('const First = defineComponent((p: {{ b: number }}, %s) => () => null);\n' % ann) * 2 + call
-    shadow = 'interface Em {{ (e: "shadowed"): void }}\ntype Ev = "shadowed2";\n' if spec.get('scope') == 'local' else ''
+    shadow = 'interface Em {{ (e: "shadowed"): void }}\ntype Ev = "shadowed2";\n' if spec.get('scope', 'top') != 'top' else ''
     src = rt.module_src('EXPECT-EMITS', expected, before, call, after, spec.get('scope', 'top'), shadow).replace("from 'vue'", "from 'vue'") \
         .replace("import {{ defineComponent }} from 'vue';", "import {{ defineComponent, type SetupContext, type SlotsType }} from 'vue';")
     return Skeleton('c19#%s|%s|%s|%s%s' % (','.join(ev), spec['enc'], spec.get('scope', 'top'), spec.get('setup', 'arrow'), ('|' + spec['ctx'] if spec.get('ctx') else '') + ('|targ2:' + spec['targ2'] if spec.get('targ2') else '')), src, [], {'resolve_type': True}, tsx=True,
@@ -121,6 +121,9 @@ def jobs(tier):
             if e[0] in ('interface', 'alias-fn', 'literal-union-alias', 'extends'):
                 out.append({'events': ev, 'enc': e[0], 'scope': 'local'})
                 out.append({'events': ev, 'enc': e[0], 'setup': 'fn'})
+            if (ev == sets[1] or tier != 'quick') and not e[0].startswith('exported') and 'export ' not in e[1] + e[3]:
+                for sc in ('local-stmt', 'local-mid', 'local-directive', 'block'):
+                    out.append({'events': ev, 'enc': e[0], 'scope': sc})
     for ev in sets[1:]:
         for e in encodings(ev):
             if e[0].startswith('after-'):
@@ -155,7 +158,7 @@ def classify(v, detail):
 def main(argv):
     rep = common.Report(PROP)
     js = jobs(rep.tier)
-    rep.bounds = {'event_sets': SETS, 'encodings': [e[0] for e in encodings(SETS[1])] + ['none', 'any', 'bare SetupContext', 'other generic name'], 'scopes': ['top', 'local shadowing'], 'setup': ['arrow', 'function expression'], 'module_contexts': ['single call', 'a second / third component of the module using the same type', 'props type expanding the same literal-union alias']}
+    rep.bounds = {'event_sets': SETS, 'encodings': [e[0] for e in encodings(SETS[1])] + ['none', 'any', 'bare SetupContext', 'other generic name'], 'scopes': ['top', 'local shadowing', 'local with a call / a directive / a let and an if statement among the declarations', 'block statement of the module'], 'setup': ['arrow', 'function expression'], 'module_contexts': ['single call', 'a second / third component of the module using the same type', 'props type expanding the same literal-union alias']}
     rep.assumptions = ['the expectation travels in the module as a generator-written comment']
     res = common.run_jobs('mirsym.checks.elements', 'run_family_job', js)
     raw = []
